@@ -152,7 +152,7 @@ func c16WellFormed(w []string) bool {
 			}
 		}
 		return true
-	case "ungrp", "save":
+	case "ungrp", "save", "reopen":
 		return n == 1
 	case "defn":
 		return (n == 3 || n == 4 && c16IsHex(w[3])) && c16IsInt(w[1], false) && c16IsHex(w[2])
@@ -420,7 +420,7 @@ func (b *c16Book) apply(w []string) (ok bool, idx int) {
 		}
 		b.ents[i].content = v
 		return true, 0
-	case "save":
+	case "save", "reopen":
 		return true, 0
 	}
 	return false, 0
@@ -612,7 +612,12 @@ func c16Exec(f *xl.File, w []string) (res string) {
 		return e(f.DeleteDefinedName(&xl.DefinedName{Name: "dn_" + w[1], Scope: unhx(w[2])}))
 	case "setc":
 		v, _ := strconv.Atoi(w[2])
-		return e(f.SetCellInt(unhx(w[1]), "A1", int64(v)))
+		if err := f.SetCellInt(unhx(w[1]), "A1", int64(v)); err != nil {
+			return "ERR"
+		}
+		// more content than the modelled token: a second cell whose position depends on the value
+		cell, _ := xl.CoordinatesToCellName(2+v%4, 2+v%6)
+		return e(f.SetCellInt(unhx(w[1]), cell, int64(v)*3))
 	case "save":
 		_, err := f.WriteToBuffer()
 		return e(err)
@@ -1017,8 +1022,11 @@ func (g *c16Gen) next() string {
 			return fmt.Sprintf("deln %d %s", g.r.Intn(4), hx(sc))
 		}
 		return fmt.Sprintf("defn %d %s %s", g.r.Intn(4), hx(sc), hx(g.refersTo()))
-	case k < 99:
+	case k < 98:
 		return fmt.Sprintf("setc %s %d", hx(g.anyName()), 1+g.r.Intn(999))
+	}
+	if g.r.Bool() {
+		return "reopen"
 	}
 	return "save"
 }
@@ -1052,6 +1060,7 @@ type c16Session struct {
 	changes int
 	fails   int
 	maxN    int
+	grid    map[int]string // list-model key -> full-grid dump of the sheet as last accepted
 }
 
 func (s *c16Session) close() {
@@ -1088,6 +1097,7 @@ func (s *c16Session) line(op string) {
 		s.changes = 0
 		s.fails = 0
 		s.maxN = 1
+		s.grid = map[int]string{}
 		d := c16ParseDump(xl.VerifC16Dump(s.f))
 		o, dn := c16Observe(s.f, &d)
 		r.Op(op, "ok | "+d.raw+" | "+o+" | "+dn)
@@ -1106,7 +1116,44 @@ func (s *c16Session) line(op string) {
 	}
 	s.hist = append(s.hist, op)
 	before := s.book.obs()
-	res := c16Exec(s.f, w)
+	// frame oracle: which list-model sheets may this call write?
+	tgtKey, srcKey := -1, -1
+	switch w[0] {
+	case "setc":
+		if i := s.book.find(unhx(w[1])); i >= 0 && c16Valid(unhx(w[1])) {
+			tgtKey = s.book.ents[i].key
+		}
+	case "copy":
+		fi, _ := strconv.Atoi(w[1])
+		ti, _ := strconv.Atoi(w[2])
+		if fi >= 0 && ti >= 0 && fi != ti && fi < len(s.book.ents) && ti < len(s.book.ents) {
+			tgtKey, srcKey = s.book.ents[ti].key, s.book.ents[fi].key
+		}
+	}
+	var res string
+	if w[0] == "reopen" {
+		// save, open the written bytes, and continue the history on the opened workbook
+		res = func() (r string) {
+			defer func() {
+				if p := recover(); p != nil {
+					r = "PANIC"
+				}
+			}()
+			buf, err := s.f.WriteToBuffer()
+			if err != nil {
+				return "ERR"
+			}
+			g, err := xl.OpenReader(buf)
+			if err != nil {
+				return "ERR"
+			}
+			s.f.Close()
+			s.f = g
+			return "ok"
+		}()
+	} else {
+		res = c16Exec(s.f, w)
+	}
 	d := c16ParseDump(xl.VerifC16Dump(s.f))
 	obs, defs := c16Observe(s.f, &d)
 	ln := r.Op(op, res+" | "+d.raw+" | "+obs+" | "+defs)
@@ -1143,6 +1190,29 @@ func (s *c16Session) line(op string) {
 	if o := s.book.defObs(); o != defs {
 		s.fails++
 		r.Fail("defs:"+w[0], fmt.Sprintf("after %s the defined-name scopes are %s, expected %s", op, defs, o), ln, replay)
+	}
+	// frame: the full grid (VerifDumpSheet: every row, cell, merge) of every sheet the call does not
+	// target is what it was; the target of CopySheet gets the grid of its source
+	if s.grid != nil {
+		rewritten := w[0] == "save" || w[0] == "reopen" // saving normalises the representation (C02's subject)
+		for _, e := range s.book.ents {
+			now := xl.VerifDumpSheet(s.f, e.name)
+			was, known := s.grid[e.key]
+			switch {
+			case !known || rewritten || (e.key == tgtKey && w[0] == "setc" && res == "ok"):
+			case e.key == tgtKey && w[0] == "copy" && res == "ok":
+				if src, ok := s.grid[srcKey]; ok && now != src {
+					s.fails++
+					r.Fail("frame:copy-differs", fmt.Sprintf("after %s the grid of the copy %q is not the grid of its source", op, e.name), ln, replay)
+				}
+			default:
+				if now != was {
+					s.fails++
+					r.Fail("frame:"+w[0], fmt.Sprintf("after %s the grid of the untargeted sheet %q changed: %s -> %s", op, e.name, was, now), ln, replay)
+				}
+			}
+			s.grid[e.key] = now
+		}
 	}
 	{
 		var xs []string
